@@ -107,8 +107,11 @@ def translate_cost(path, fn):
                 else:
                     fail(path, st, "cost comparand")
             elif op == "ge" and isinstance(cmpv, ast.Constant):
-                # nested: if self._x == 'lit': return n
+                # nested: if self._x == 'lit': return n   (optionally closed by a plain `return n`)
                 for inner in st.body:
+                    if inner is st.body[-1] and isinstance(inner, ast.Return) and isinstance(inner.value, ast.Constant):
+                        clauses.append(("ge", cmpv.value, inner.value.value))
+                        continue
                     ok = (
                         isinstance(inner, ast.If) and not inner.orelse and len(inner.body) == 1
                         and isinstance(inner.body[0], ast.Return) and isinstance(inner.body[0].value, ast.Constant)
